@@ -14,6 +14,9 @@ import (
 	govtypes "github.com/cosmos/cosmos-sdk/x/gov/types"
 	"github.com/cosmos/cosmos-sdk/x/upgrade"
 	upgradetypes "github.com/cosmos/cosmos-sdk/x/upgrade/types"
+	transfertypes "github.com/cosmos/ibc-go/v3/modules/apps/transfer/types"
+	ibcclienttypes "github.com/cosmos/ibc-go/v3/modules/core/02-client/types"
+	channeltypes "github.com/cosmos/ibc-go/v3/modules/core/04-channel/types"
 	"github.com/ethereum/go-ethereum/common"
 	gethtypes "github.com/ethereum/go-ethereum/core/types"
 	abci "github.com/tendermint/tendermint/abci/types"
@@ -74,6 +77,9 @@ type scen struct {
 	// eth (rinkeby mode)
 	ethHead *gethtypes.Header
 	props   uint64
+	// voucher of an ICS-20 route into chain 0, registered as a module-owned pair (the aggregate IBC hook converts it on receipt)
+	voucher string
+	ibcSeq  uint64
 	// twin of the world's call-target ERC-20 on chain 0 (same name, symbol, decimals): UpdateTokenPairERC20 can succeed
 	twin common.Address
 	// the BSC client state the simulated BSC client was created with (ToggleClient installs a copy elsewhere)
@@ -197,6 +203,13 @@ func runScenario(ch Chooser, steps int, prof nodeProfile) (trace []string, kinds
 	s.setupBSC()
 	s.setupETH()
 	s.twin = c0.DeployERC20("target", "TGT", 18)
+	s.voucher = transfertypes.ParseDenomTrace("transfer/channel-0/uatom").IBCDenom()
+	vc := sdk.NewCoins(sdk.NewInt64Coin(s.voucher, 1000))
+	kit.Must(c0.App.BankKeeper.MintCoins(c0.Ctx(), aggregatetypes.ModuleName, vc), "mint voucher supply")
+	kit.Must(c0.App.BankKeeper.SendCoinsFromModuleToAccount(c0.Ctx(), aggregatetypes.ModuleName, w.Outsider.Acc, vc), "voucher holder")
+	_, verr := c0.App.AggregateKeeper.RegisterCoin(c0.Ctx(), banktypes.Metadata{Description: "v", Base: s.voucher, Display: s.voucher, Name: "uatom via channel-0", Symbol: "ibcATOM",
+		DenomUnits: []*banktypes.DenomUnit{{Denom: s.voucher, Exponent: 0}}})
+	kit.Must(verr, "register voucher pair")
 	// a coin pair and an ERC-20 pair registered through the keeper (further ones go through governance)
 	meta := banktypes.Metadata{Description: "a", Base: "acoin", Display: "acoin", Name: "acoin", Symbol: "ACOIN",
 		DenomUnits: []*banktypes.DenomUnit{{Denom: "acoin", Exponent: 0}}}
@@ -214,7 +227,7 @@ func runScenario(ch Chooser, steps int, prof nodeProfile) (trace []string, kinds
 	w.Tick()
 	scenarioSetupSpan = c0.Now.Sub(c0.Headers[1].Header.Time)
 	actions := []func(){s.send, s.send, s.relayAll, s.relayAll, s.tick, s.convertCoin, s.convertERC20, s.stakingCall, s.govVoteCall, s.bscUpdate, s.bscUpdate,
-		s.ethUpdate, s.tssInject, s.tssUpdate, s.submitProposal, s.submitProposal, s.voteProposals, s.bankSend}
+		s.ethUpdate, s.tssInject, s.tssUpdate, s.submitProposal, s.submitProposal, s.voteProposals, s.bankSend, s.ibcReceive}
 	for i := 0; i < steps; i++ {
 		actions[ch.Intn("action", len(actions))]()
 	}
@@ -371,6 +384,44 @@ func (s *scen) govVoteCall() {
 	to := common.HexToAddress(syscontracts.GovContractAddress)
 	c0.DeliverEth(u, &to, nil, data)
 	s.kind("evm:gov.vote")
+}
+
+// ibcReceive: an ICS-20 packet of the registered voucher arrives on chain 0. The transfer route wired in app.go (aggregate
+// middleware over the transfer application) is called the way IBC core calls it inside MsgRecvPacket; what core would put into
+// the DeliverTx response - the acknowledgement and the events - goes into the trace, the state goes into the app hash. In a
+// third of the receives the pair has just been switched off or on again, so that the hook's "conversion failed" branch runs too.
+func (s *scen) ibcReceive() {
+	c0 := s.w.Chains[0]
+	if s.ch.Intn("togglePair", 3) == 0 {
+		_, err := c0.App.AggregateKeeper.ToggleRelay(c0.Ctx(), s.voucher)
+		kit.Must(err, "toggle voucher pair")
+	}
+	s.ibcSeq++
+	recv := s.w.Users[s.ch.Intn("receiver", 2)]
+	data := transfertypes.NewFungibleTokenPacketData("uatom", fmt.Sprint(1+s.ch.Intn("amount", 90)), "cosmos1qql8ag4cluz6r4dz28p3w00dnc9w8ueulg2gmc", recv.Acc.String())
+	packet := channeltypes.NewPacket(data.GetBytes(), s.ibcSeq, "transfer", "channel-7", "transfer", "channel-0", ibcclienttypes.NewHeight(1, 1_000_000), 0)
+	route, ok := c0.App.IBCKeeper.Router.GetRoute(transfertypes.ModuleName)
+	if !ok {
+		kit.Failf("no transfer route")
+	}
+	ctx := c0.Ctx().WithEventManager(sdk.NewEventManager())
+	cctx, write := ctx.CacheContext()
+	ack := route.OnRecvPacket(cctx, packet, s.w.Rels[0].Acc)
+	ackBz := []byte("nil")
+	if ack != nil {
+		ackBz = ack.Acknowledgement()
+		if ack.Success() {
+			write()
+			ctx.EventManager().EmitEvents(cctx.EventManager().Events())
+		}
+	} else {
+		write()
+		ctx.EventManager().EmitEvents(cctx.EventManager().Events())
+	}
+	if c0.Trace != nil {
+		c0.Trace(fmt.Sprintf("%s h=%d ibc-recv seq=%d ack=%x events=%s", c0.ChainID, c0.Header.Height, s.ibcSeq, sha256.Sum256(ackBz), kit.EventsDigest(ctx.EventManager().ABCIEvents())))
+	}
+	s.kind("ics20:OnRecvPacket")
 }
 
 func (s *scen) bankSend() {
